@@ -35,8 +35,8 @@ SPECIAL_MC = {
                         "thorough": [dict(POWER_BASE, MaxOps=4, WalN=n, MaxCrashes=2) for n in (1, 2, 3)]},
             ["Inv_C09", "Inv_C03", "Inv_OpenOk"]),
     # ExcuseF7 is TRUE only while finding F7 is listed as open in known_findings.json
-    "C10": ("MCDamage", {"quick": [dict(DAMAGE_BASE, ExcuseF7="@F7"), dict(DAMAGE_BASE, WalN=1, ExcuseF7="@F7")],
-                         "thorough": [dict(DAMAGE_BASE, MaxOps=4, WalN=n, MaxCrashes=2, ExcuseF7="@F7") for n in (1, 2, 3)]},
+    "C10": ("MCDamage", {"quick": [dict(DAMAGE_BASE, ExcuseF7="@F7", ContinueAfterDamage="FALSE"), dict(DAMAGE_BASE, WalN=1, ExcuseF7="@F7", ContinueAfterDamage="FALSE")],
+                         "thorough": [dict(DAMAGE_BASE, MaxOps=4, WalN=n, MaxCrashes=2, ExcuseF7="@F7", ContinueAfterDamage="FALSE") for n in (1, 2, 3)]},
             ["Inv_C10"]),
     "C14": ("MCFault", {"quick": [dict(FAULT_BASE), dict(FAULT_BASE, WalN=1)],
                         "thorough": [dict(FAULT_BASE, MaxOps=4, WalN=n, MaxFaults=f) for n, f in ((1, 1), (2, 1), (3, 1), (2, 2))]},
@@ -503,6 +503,15 @@ def run_seq_check(prop, tier, replay=None):
         mc = run_mc(tier, PROP_INV[prop], prop=prop)
         log(f"[{prop}] {mc['module']}: {mc['states']} distinct states, violated={mc['violated']}")
         scen = build_scenarios(prop, tier, rnd)
+        if prop == "C10":
+            # beyond C10 (observation F8, DESIGN.md 6): the model with the store USED after an accepted damaged directory
+            c = dict(DAMAGE_BASE, MaxCrashes=0, WalN=10, ExcuseF7="TRUE", ContinueAfterDamage="TRUE")
+            o8 = tlc("MCDamage", cfg_text(c, invariants=["Inv_Beyond_UsableAfterAcceptedDamage"]), workers=4, timeout=900, name="mcf8")
+            r8 = parse_mc(o8)
+            mc["beyond_F8_model"] = {"config": c, "violated": r8["violated"], "distinct": r8["distinct"]}
+            if r8["violated"]:
+                print("NOTE beyond the listed properties: MCDamage with ContinueAfterDamage = TRUE violates Inv_Beyond_UsableAfterAcceptedDamage "
+                      "(observation F8: what is appended behind an accepted torn tail is lost at the next restart)")
     need_shim = any(s["env"]["mode"] in ("crash", "power", "fault") or s["env"].get("crash") for s in scen)
     log(f"[{prop}] {len(scen)} scenarios")
     # 2. the code: run, record
@@ -532,7 +541,15 @@ def run_seq_check(prop, tier, replay=None):
     drift = 0
     bad_sids = set()
     knowns = {}
+    beyond = {}
     for f in fails:
+        # observations beyond the listed properties (DESIGN.md 9): notes, never verdicts
+        for t in f["tags"]:
+            if t.startswith("BEYOND:"):
+                beyond[t] = beyond.get(t, 0) + 1
+        f["tags"] = [t for t in f["tags"] if not t.startswith("BEYOND:")]
+        if not f["tags"]:
+            continue
         mine = [t for t in f["tags"] if any(t.startswith(p) for p in prefixes)]
         if any(t.startswith("DRIFT") for t in f["tags"]):
             drift += 1
@@ -566,6 +583,8 @@ def run_seq_check(prop, tier, replay=None):
         print(f"VIOLATION property={prop} replay={rp}")
         log(f"[{prop}]   tag={t} scenario={sid} line={f['line']} all-tags={f['tags']}")
         nviol += 1
+    for t, c in sorted(beyond.items()):
+        print(f"NOTE beyond the listed properties: {t} ({c} recorded cases)")
     if drift:
         print(f"NOTE drift: {drift} recorded steps are not steps of the fine-grained model (no property conjunct failed there)")
     matched = len([s for s in scen if s["id"] not in bad_sids])
@@ -574,7 +593,7 @@ def run_seq_check(prop, tier, replay=None):
            "traces_validated_against_impl": matched, "samples": samples,
            "scenarios": len(scen), "trace_lines_checked": st["lines"], "drift_lines": drift,
            "model_module": mc.get("module", "MCSteps"), "model_configs": mc["configs"], "model_invariants": SPECIAL_MC[prop][2] if prop in SPECIAL_MC else PROP_INV[prop], "model_invariants_violated": mc["violated"],
-           "known_findings_hit": sorted(knowns), "exhaustive": False,
+           "known_findings_hit": sorted(knowns), "exhaustive": False, "beyond_notes": beyond, "beyond_model": mc.get("beyond_F8_model"),
            "harness_s": round(t2 - t1, 1), "validation_s": round(t3 - t2, 1)}
     write_evidence(prop, tier, "model_checking", cov, time.time() - t0, nviol,
                    ["BLAKE3, kernel rename/flock atomicity and parking_lot are trusted",
